@@ -139,7 +139,7 @@ def check(run, prog):
         d_bot = expected_delay(mn, refq) * SR * Hz
         exp_start = sp.ceiling(-sp.Min(0, d_top, d_bot, evaluate=False), evaluate=False)
         exp_back = sp.ceiling(sp.Max(0, d_top, d_bot, evaluate=False), evaluate=False)
-        cons = _freq_constraints(nchan)
+        cons = _freq_constraints(nchan, delay=d_bot)
         items = d.items if isinstance(d, StackV) else [d]
         if not isinstance(d, StackV) or len(items) != nchan:
             ck.same("R3", f_coh.where, "result data " + tag, "one dedispersed channel per input channel", False, found=repr(d)[:200])
@@ -161,7 +161,10 @@ def check(run, prog):
             ck.eq("R3", f_coh.where, "crop start " + tag, "== ceil(-min(0, delay_top, delay_bottom)) with delays at max_freq/min_freq",
                   lo, exp_start, constraints=cons)
             # back crop: hi == N - ceil(max(0, d_top, d_bot)) wherever that is >= start; otherwise nothing is returned
-            ck.eq("R3", f_coh.where, "crop stop " + tag,
+            ck.eq("R3", f_coh.where, "crop stop (delays shorter than the signal) " + tag,
+                  "== N - ceil(max(0, delay_top, delay_bottom))",
+                  hi, sp.Max(exp_start, N - exp_back, evaluate=False), constraints=cons)
+            ck.eq("R3", f_coh.where, "crop stop (delays comparable to or longer than the signal) " + tag,
                   "== N - ceil(max(0, delay_top, delay_bottom)), clamped so that a delay longer than the signal returns no samples",
                   hi, sp.Max(exp_start, N - exp_back, evaluate=False), constraints=_big_delay(cons))
             ck.same("R3", f_coh.where, "crop bounds are non-negative by construction " + tag,
